@@ -29,7 +29,7 @@ REQUIRED = {"grammar.fault_free": {"quick": 100, "thorough": 5000}, "recipe.same
             "dry_run.no_hooks": {"quick": 5, "thorough": 300}}
 REQUIRED_SEEN = {"tag_name_class": ["contains_percent_sign"], "selection_shape": ["by_rendered_outline_tag"], "hook_decoration": ["capture", "plain"], "hook_habit": ["reads_status_of_its_element", "plain"], "fault_hook": ["before_all", "after_all", "before_feature", "after_feature", "before_rule", "after_rule",
                                 "before_scenario", "after_scenario", "before_step", "after_step", "before_tag", "after_tag"],
-                 "tag_hook_owner_kind": ["feature", "rule", "scenario"], "failfast_owner_kind": ["feature", "rule", "scenario", "step"],
+                 "tag_hook_owner_kind": ["feature", "rule", "scenario"], "failfast_owner_kind": ["feature", "rule", "scenario", "step"], "hook_bound_to": ["function", "partial", "callable_object", "bound_method"], "hook_fault_after_a_raising_cleanup": ["feature", "rule", "scenario"],
                  "failfast_owner_shape": ["scenario_without_steps"]}
 EXHAUSTIVE = True
 EXHAUSTIVE_SCOPE = "every hook invocation of the fault-free run of every generated program is an injection point"
@@ -237,6 +237,7 @@ def run_program(lab, mon, case, rng, tier, sample=False):
         excs = ["Exception", "AssertionError"] if tier == "thorough" else [("Exception", "AssertionError")[k % 2]]
         for exc in excs:
             one_fault(lab, mon, case, struct, pred, obs0, calls0, owner0, k, exc)
+    cleanup_then_fault(lab, mon, case, struct, rng, tier)
     # ---- the same faults under a "fail fast" environment.py (after_scenario skips the rest of the feature / rule once a
     #      scenario has failed): the element whose hook raised is hook_error at the END of the run as well
     if H0:
@@ -251,6 +252,69 @@ def run_program(lab, mon, case, rng, tier, sample=False):
     if sample:
         mon.sample({"features": RB.case_texts(case), "args": args, "fault_free_hook_log": [list(map(str, h)) for h in H0[:40]],
                     "injection_points": len(H0)})
+
+
+def cleanup_then_fault(lab, mon, case, struct, rng, tier):
+    """A cleanup of the first executed scenario raises (handled: that scenario is error); LATER a hook raises: the element whose
+    hook it is -- by the structure of the hook log, not by what the context shows -- is hook_error."""
+    if case["cfg"]["stop"] or case["cfg"]["dry_run"]:
+        return
+
+    def make_plug():
+        first = []
+
+        def plug(state, context, name, elem, tag):
+            if name == "before_scenario" and not first:
+                first.append(elem.name)
+
+                def bad_cleanup():
+                    raise RuntimeError("injected cleanup failure")
+                context.add_cleanup(bad_cleanup)
+        return plug, first
+    plug, first = make_plug()
+    saved = lab.extra_hook_plugins
+    lab.extra_hook_plugins = list(saved or []) + [plug]
+    try:
+        obs1 = lab.run(case["program"], args=case["args"])
+    finally:
+        lab.extra_hook_plugins = saved
+    c1 = dict(case, raising_cleanup_in_first_scenario=True)
+    if obs1.escaped is not None:
+        mon.check("cleanup_then_fault.no_exception_escapes", False, lambda: RB.witness(c1, escaped=repr(obs1.escaped)))
+        return
+    if not first:
+        return
+    errs, owner1 = check_grammar(obs1.hooks, struct)
+    mon.check("cleanup_then_fault.hook_log_still_nests", not errs, lambda: RB.witness(c1, errors=errs[:6], hooks=[list(map(str, h)) for h in obs1.hooks[:60]]))
+    if errs:
+        return
+    H1 = obs1.hooks
+    after = [j for j, h in enumerate(H1) if h[0] == "after_scenario" and h[1] == first[0]]
+    if not after:
+        return
+    later = [j for j in range(after[0] + 1, len(H1)) if owner1[j] and owner1[j][0] in ("feature", "rule", "scenario") and owner1[j][1] != first[0]]
+    for k in (later if tier == "thorough" else rng.sample(later, min(5, len(later)))):
+        fault = {"k": k, "exc": "Exception"}
+        plug, _f = make_plug()
+        lab.extra_hook_plugins = list(saved or []) + [plug]
+        try:
+            obs = lab.run(case["program"], args=case["args"], hook_fault=fault)
+        finally:
+            lab.extra_hook_plugins = saved
+        c2 = dict(c1, hook_fault=fault)
+        kind, ename, phase = owner1[k]
+        W = lambda **kw: RB.witness(c2, hook=[str(x) for x in H1[k]], owner=[kind, ename, phase], scenario_whose_cleanup_raised=first[0], **kw)
+        mon.case(("cleanup+fault", RB.strip_case(c2)), True)
+        mon.check("cleanup_then_fault.no_exception_escapes", obs.escaped is None, lambda: W(escaped=repr(obs.escaped)))
+        if obs.escaped is not None or not obs.faults_fired:
+            continue
+        mon.seen("hook_fault_after_a_raising_cleanup", kind)
+        st = obs.elem_status.get(ename)
+        mon.check("cleanup_then_fault.owner_is_hook_error", st == "hook_error", lambda: W(status=st, statuses=obs.elem_status))
+        if phase == "before" and kind in ("feature", "rule"):
+            inside = set(struct.descendants(ename))
+            body = [c for c in obs.calls if c[0] in inside]
+            mon.check("cleanup_then_fault.before_phase_suppresses_body", not body, lambda: W(calls_inside=body[:5]))
 
 
 def failfast_fault(lab, mon, case, struct, owner0, H0, k, scope, exc="Exception"):
@@ -553,6 +617,39 @@ def run(spec, mon):
             lab.extra_hook_plugins = None
     for i in range(3 if tier == "quick" else 60):
         failfast_directed(lab, mon, rng, outs)
+    for i in range(2 if tier == "quick" else 20):
+        process_hooks(mon, rng)
+
+
+def process_hooks(mon, rng):
+    """`python -m behave` on a project whose environment.py binds its hook names to callables of several kinds (functions,
+    functools.partial objects, callable objects, bound methods): the hook log of the process is the one the reference model gives."""
+    from ..lab.subproc import Project
+    from ..lab.inproc import HOOK_NAMES
+    gen = {"p_tag": 0.5, "p_nonpass": 0.2, "max_features": 2, "max_items": 2, "max_steps": 2, "p_empty_examples": 0.0, "p_stepless": 0.0}
+    case = RB.gen_case(rng, gen=gen, p_stop=0.0, p_dry=0.0, p_noskipped=0.3)
+    pred = runmodel.predict(case["program"], case["cfg"])
+    if pred.ambiguous_hooks:
+        return
+    kinds = {h: rng.choice(["function", "partial", "callable_object", "bound_method"]) for h in HOOK_NAMES}
+    proj = Project(case["program"], {"hook_objects": kinds})
+    try:
+        res = proj.run(case["args"] + ["-f", "plain"])
+    finally:
+        proj.close()
+    c2 = dict(case, hook_objects=kinds)
+    if res.get("timeout"):
+        mon.note("subprocess watchdog fired (inconclusive case)")
+        return
+    for k in set(kinds.values()):
+        mon.seen("hook_bound_to", k)
+    norm = lambda e: e[1] if isinstance(e, (tuple, list)) else e
+    got = [(e[1], e[2], e[3]) for e in res["events"] if e[0] == "hook"]
+    want = [(h, norm(e), t) for (h, e, t) in pred.hooks]
+    mon.case(("process-hooks", RB.strip_case(c2)), True)
+    mon.check("process.hook_log_as_the_model_gives_it", got == want,
+              lambda: RB.witness(c2, first_difference=next((i for i, (a, b) in enumerate(zip(got, want)) if a != b), min(len(got), len(want))),
+                                 got=got[:60], want=want[:60], rc=res["rc"], stderr=res["stderr"][-500:]))
 
 
 def failfast_directed(lab, mon, rng, outs):
